@@ -37,7 +37,52 @@ fn permutation(n: usize, seed: u64) -> Vec<usize> {
 }
 
 /// kind c12.repeat / c12.threads; rules[0] = rule text; switches = bits (None: default set)
+/// Probe rule `a`, then repeatedly run N matches of rule `b` on this thread and probe `a` again, for
+/// every N around 2^8 and 2^16 (a counter or stamp that wraps after that many calls lines up with
+/// what an earlier call left behind for exactly one N).
+fn long_history(a: &str, b: &str, probes: &[DObj]) -> Result<Option<String>, String> {
+    let (ra, rb) = match (engine::load_text(a), engine::load_text(b)) {
+        (Load::Ok(x), Load::Ok(y)) => (x, y),
+        _ => return Err("rules do not load".into()),
+    };
+    // one probe document per round, so that exactly one call of the first rule separates the runs
+    let probe = match probes.first() {
+        Some(p) => p,
+        None => return Err("no probe document".into()),
+    };
+    let before = engine::matches(&ra, probe).unwrap_or(false);
+    let filler = DObj(vec![("f1".to_string(), DocVal::s(" w01z w02z "))]);
+    for n in (250usize..262).chain(65_525..65_545) {
+        for _ in 0..n {
+            let _ = engine::matches(&rb, &filler);
+        }
+        let after = engine::matches(&ra, probe).unwrap_or(false);
+        if after != before {
+            return Ok(Some(format!(
+                "the first rule gives {before} on {} but {after} after {n} further matches of the second rule on the same thread",
+                probe.show()
+            )));
+        }
+    }
+    // and every probe document once more after the long run
+    for d in probes {
+        let x = engine::matches(&ra, d).unwrap_or(false);
+        let y = engine::matches(&ra, d).unwrap_or(false);
+        if x != y {
+            return Ok(Some(format!("the first rule gives {x} and then {y} on {}", d.show())));
+        }
+    }
+    Ok(None)
+}
+
 pub fn judge(case: &Case) -> Outcome {
+    if case.kind == "c12.long_history" {
+        return match long_history(&case.rules[0], &case.rules[1], &case.docs) {
+            Ok(Some(m)) => Outcome::Violation(m),
+            Ok(None) => Outcome::Pass { nontrivial: None, evaluations: 70_000, labels: vec!["long_history"] },
+            Err(e) => Outcome::Skip(e),
+        };
+    }
     if case.kind == "c12.twins" {
         // the reproducible unit is the whole curated sequence in two load orders
         return match twins_disagreement() {
@@ -323,6 +368,23 @@ pub fn curated() -> Vec<(String, Vec<DObj>)> {
             ],
         ));
     }
+    // needle lists whose concatenations coincide (a separator character inside a needle)
+    for sep in ["\\0", "\\x01", ",", "|", "\\n"] {
+        let lists = [
+            format!("[\"a{sep}b\", \"c\"]"),
+            format!("[\"a\", \"b{sep}c\"]"),
+            format!("[\"*a{sep}b*\", \"*c*\"]"),
+            format!("[\"*a*\", \"*b{sep}c*\"]"),
+        ];
+        let texts = ["a", "c", "b", "xax", "xcx"];
+        let docs: Vec<DObj> = texts.iter().map(|t| DObj(vec![("f1".to_string(), DocVal::s(t))])).collect();
+        for l in lists {
+            out.push((
+                format!("detection:\n  A:\n    f1: {l}\n  condition: A\ntrue_positives: []\ntrue_negatives: []\n"),
+                docs.clone(),
+            ));
+        }
+    }
     // loads that fail part-way through (a dangling sign, an unterminated cast, a bad pattern) next
     // to rules with number literals in the condition: whatever a failed load leaves behind must not
     // reach the next rule
@@ -564,6 +626,36 @@ pub fn run(tier: &str, seed: u64) -> i32 {
             }
         }
         _ => report.notes.push("could not spawn worker processes; cross-process comparison skipped".into()),
+    }
+
+    // long histories on one thread: whatever a match leaves behind (scratch buffers, stamps,
+    // counters that wrap) must not reach a later match. A quantified list of 70 needles is probed, then
+    // N matches of a shorter list follow, then the probe again - for every N around 2^8 and 2^16.
+    {
+        let rule_of = |len: usize, q: &str| {
+            let members: String = (0..len).map(|i| format!("    - '*w{i:02}z*'\n")).collect();
+            format!("detection:\n  A:\n    {q}:\n{members}  condition: A\ntrue_positives: []\ntrue_negatives: []\n")
+        };
+        let mut problems = vec![];
+        for (long, short, q) in [(70usize, 64usize, "of(f1, 1)"), (130, 65, "of(f1, 2)"), (70, 64, "all(f1)")] {
+            let probes: Vec<DObj> = [long - 1, long - 2, 0, short]
+                .iter()
+                .map(|i| DObj(vec![("f1".to_string(), DocVal::Str(format!(" w{:02}z w{:02}z ", i, (i + 1) % long)))]))
+                .chain(std::iter::once(DObj(vec![("f1".to_string(), DocVal::Str((0..long).map(|i| format!(" w{i:02}z")).collect()))])))
+                .collect();
+            report.evaluations += 1_380_000;
+            report.cases += 1;
+            if let Ok(Some(m)) = long_history(&rule_of(long, q), &rule_of(short, q), &probes) {
+                let mut c = Case::new("c12.long_history");
+                c.rules = vec![rule_of(long, q), rule_of(short, q)];
+                c.docs = probes.clone();
+                problems.push((c, m));
+            }
+        }
+        report.label_n("long_history_sequences", 3);
+        for (c, m) in problems {
+            report.violations.push(Violation { case: c, message: m });
+        }
     }
 
     // curated near-twin rules, loaded in opposite orders by two fresh processes
